@@ -7,7 +7,7 @@ VARIABLES reg,   \* variable name -> identity of the stored value ("absent" if n
           l
 Trace == ndJsonDeserialize("trace.ndjson")
 ASSUME TLCSet(1, 0) /\ TLCSet(2, {})
-Names == {"db", "dbx", "PK", "KEK", "OsIndications", "osindications", "BootOrder", "Custom", "SetupMode", "SecureBoot"}
+Names == {"db", "dbx", "PK", "KEK", "OsIndications", "osindications", "db@global", "dbx@global", "Plain0", "BootOrder", "Custom", "SetupMode", "SecureBoot"}
 Ev == Trace[l]
 IsEvent(e) == l <= Len(Trace) /\ Ev.op = e /\ l' = l + 1
 
